@@ -7,6 +7,7 @@ import (
 	"strings"
 
 	"github.com/gofiber/fiber/v3"
+	"github.com/valyala/fasthttp"
 
 	"verifharness/internal/drive"
 	"verifharness/internal/ev"
@@ -557,7 +558,7 @@ func judgeStream(e *ev.Env, c *ev.Case, cfg string, input, out []byte) ([]*stric
 		for _, r := range rs {
 			off += len(r.Raw)
 		}
-		if name, after := injectedLine(out[off:]); name != "" {
+		if name, after := injectedLine(out[off:], append(append([]byte(nil), input...), fasthttp.AppendUnquotedArg(nil, input)...)); name != "" {
 			e.Violation(c, "wellformed|injected-header-line|after:"+after, "a line-splitting client sees the header line "+name+" which the application never set",
 				map[string]any{"config": cfg, "input_hex": hexOf(input), "input": show(input), "output": show(out), "header": name})
 		}
@@ -569,21 +570,14 @@ func judgeStream(e *ev.Env, c *ev.Case, cfg string, input, out []byte) ([]*stric
 // flashCookieBytes classifies the bytes of the flash cookie values in b: the worst class over all
 // flash Set-Cookie lines ("" when there is none or none carries a control byte).
 func flashCookieBytes(b []byte) string {
-	start := []byte("Set-Cookie: " + fiber.FlashCookieName + "=")
 	rank := map[string]int{"": 0, "none": 0, "other-CTL": 1, "NUL": 2, "CR": 3, "LF": 4, "CRLF": 5}
 	worst := ""
-	for {
-		i := bytes.Index(b, start)
-		if i < 0 {
+	for off := 0; ; {
+		v, _, next := flashCookieAt(b, off)
+		if next < 0 {
 			return worst
 		}
-		v := b[i+len(start):]
-		b = v
-		if j := bytes.Index(v, []byte("; path=/; SameSite=Lax\r\n")); j >= 0 {
-			v = v[:j]
-		} else if j := bytes.Index(v, []byte("\r\n\r\n")); j >= 0 {
-			v = v[:j]
-		}
+		off = next
 		if cls := byteClass(string(v)); rank[cls] > rank[worst] {
 			worst = cls
 		}
@@ -814,7 +808,7 @@ func surviveCase(e *ev.Env, c *ev.Case, o appOpts, reqs []*rq, raw []byte, mutat
 	rs, ok := judgeStream(e, c, cfg, raw, out)
 	fin := finals(rs)
 	for _, r := range fin {
-		if name, after := injectedLine(r.Raw); name != "" {
+		if name, after := injectedLine(r.Raw, append(append([]byte(nil), raw...), fasthttp.AppendUnquotedArg(nil, raw)...)); name != "" {
 			// parsed, but with a header line the application never set
 			e.Violation(c, "wellformed|injected-header-line|after:"+after, "response carries the header line "+name+" which the application never set",
 				map[string]any{"config": cfg, "input_hex": hexOf(raw), "input": show(raw), "output": show(out), "header": name})
